@@ -63,20 +63,24 @@ theorem modB_RI (T : Nat) (b : Nat) {f : TxB → TxB} (hf : Good f) : Rel (RI T)
   obtain ⟨hh, hd⟩ := h b' lk e he hm
   exact ⟨Holds_upsert hf b hh, hd⟩
 
-theorem logged_locks (cfg : Cfg) (b : Nat) (c : BCmd) (w : FWorld) : (logged cfg b c w).locks = w.locks := rfl
+/-- the environment's move before a command keeps the invariant: it only removes foreign entries -/
+theorem LockInv_logged (T : Nat) (cfg : Cfg) (b : Nat) (c : BCmd) (w : FWorld) (hI : LockInv T w) :
+    LockInv T (logged cfg b c w) := by
+  obtain ⟨tx, hctx, h⟩ := hI
+  exact ⟨tx, hctx, fun b' lk e he hm => h b' lk e (logged_locks_sub _ _ _ _ _ _ he) hm⟩
 
 /-- a command other than `set_lock` keeps the invariant, failing or not -/
 theorem backendCmd_RI (T : Nat) (cfg : Cfg) (b : Nat) (c : BCmd) (hc : c.noLock) :
     Rel (RI T) (backendCmd cfg b c) := by
   intro w hI
-  obtain ⟨tx, hctx, h⟩ := hI
   cases hf : cfg.fails w.counter
   · rw [backendCmd_ok cfg b c w hf]
-    refine ⟨tx, by simp [applyCmd_ctx, logged, hctx], fun b' lk e he hm => ?_⟩
+    obtain ⟨tx, hctx, h⟩ := LockInv_logged T cfg b c w hI
+    refine ⟨tx, by simp [applyCmd_ctx, hctx], fun b' lk e he hm => ?_⟩
     have he' := applyCmd_locks_shrink b c _ hc _ _ he
-    simpa [applyCmd_now, logged] using h b' lk e he' hm
+    simpa [applyCmd_now] using h b' lk e he' hm
   · rw [backendCmd_fail cfg b c w hf]
-    exact ⟨tx, hctx, h⟩
+    exact LockInv_logged T cfg b c w hI
 
 /-- `set_lock` either finds the key held and changes nothing, or writes an entry with this transaction's token
 and a deadline `ttl` ahead -/
@@ -92,8 +96,15 @@ theorem applyCmd_setLock (b lk ttl : Nat) (w : FWorld) :
     · exact Or.inr rfl
   · exact Or.inr rfl
 
-/-- the whole wait loop of `_lock_updates` keeps the invariant: the entry a successful `set_lock` writes is
-remembered at once -/
+theorem adv_RI (T dt : Nat) : Rel (RI T) (modW fun w => { w with now := w.now + dt }) := by
+  refine Rel.modW _ fun w hI => ?_
+  obtain ⟨tx, hc, h⟩ := hI
+  refine ⟨tx, hc, fun b lk e he hm => ?_⟩
+  obtain ⟨hh, d, hd1, hd2⟩ := h b lk e he hm
+  exact ⟨hh, d, hd1, by simp only; omega⟩
+
+/-- the whole wait loop of `_lock_updates` keeps the invariant, whatever the environment releases meanwhile and
+however long the lock-steps take: the entry a successful `set_lock` writes is remembered at once -/
 theorem lockLoop_RI (cfg : Cfg) (b lk : Nat) (n : Nat) : Rel (RI cfg.timeout) (lockLoop cfg b lk n) := by
   induction n with
   | zero => exact Rel.throw (RI.pre _) _
@@ -104,30 +115,32 @@ theorem lockLoop_RI (cfg : Cfg) (b lk : Nat) (n : Nat) : Rel (RI cfg.timeout) (l
     cases hf : cfg.fails w.counter
     · rw [backendCmd_ok cfg b _ w hf]
       simp only
-      obtain ⟨tx, hctx, h⟩ := hI
-      rcases applyCmd_setLock b lk cfg.timeout (logged cfg b (.setLock lk cfg.timeout) w) with hr | hr
-      · -- the key is held (live): `set_lock` answered False, retry
+      have hI' := LockInv_logged cfg.timeout cfg b (.setLock lk cfg.timeout) w hI
+      generalize logged cfg b (.setLock lk cfg.timeout) w = wl at hI' ⊢
+      rcases applyCmd_setLock b lk cfg.timeout wl with hr | hr
+      · -- the key is held (live): `set_lock` answered False; one lock-step, retry
         rw [hr]
         simp only [show ¬ (Reply.bool false = Reply.bool true) by decide, if_false]
-        exact ih _ ⟨tx, hctx, h⟩
-      · rw [hr]
+        exact ih _ (adv_RI cfg.timeout cfg.stepDt wl hI')
+      · obtain ⟨tx, hctx, h⟩ := hI'
+        rw [hr]
         simp only [if_true]
         refine ⟨{ tx with backs := upsert b (fun t => { t with locks := t.locks ++ [lk] }) tx.backs },
-          by simp [modB, modW, logged, hctx], fun b' lk' e he hm => ?_⟩
-        simp only [modB, modW, logged, alLookup_put] at he
+          by simp [modB, modW, hctx], fun b' lk' e he hm => ?_⟩
+        simp only [modB, modW, alLookup_put] at he
         split at he
         · rename_i heq
           simp only [Prod.mk.injEq] at heq
           obtain ⟨rfl, rfl⟩ := heq
           simp only [Option.some.injEq] at he
           subst he
-          exact ⟨Holds_upsert_add _ _ _, _, rfl, by simp [modB, modW, logged]⟩
+          exact ⟨Holds_upsert_add _ _ _, _, rfl, by simp [modB, modW]⟩
         · obtain ⟨hh, d, hd1, hd2⟩ := h b' lk' e he hm
           refine ⟨Holds_upsert (f := fun t => { t with locks := t.locks ++ [lk] })
             (fun t => ⟨rfl, fun l hl => by simp [hl]⟩) b hh, d, hd1, ?_⟩
-          simpa [modB, modW, logged] using hd2
+          simpa [modB, modW] using hd2
     · rw [backendCmd_fail cfg b _ w hf]
-      exact hI
+      exact LockInv_logged _ cfg b _ w hI
 
 
 theorem good_keep {f : TxB → TxB} (h1 : ∀ t, (f t).bid = t.bid) (h2 : ∀ t, (f t).locks = t.locks) : Good f :=
@@ -179,14 +192,28 @@ theorem txDelete_RI (cfg : Cfg) (b k : Nat) : Rel (RI cfg.timeout) (txDelete cfg
   rel_steps (RI.pre cfg.timeout)
   all_goals ri_leaf
 
-theorem emit_RI (T : Nat) (r : Reply) : Rel (RI T) (emit r) := Rel.modW _ fun _ h => h
+theorem lockAll_RI (cfg : Cfg) (b : Nat) (ks : List Nat) : Rel (RI cfg.timeout) (lockAll cfg b ks) := by
+  induction ks with
+  | nil => exact Rel.pure (RI.pre _) _
+  | cons k rest ih =>
+    unfold lockAll
+    simp only [bind_eq]
+    exact Rel.bind (RI.pre _) (lockUpdates_RI _ _ _) fun _ => ih
 
-theorem adv_RI (T dt : Nat) : Rel (RI T) (modW fun w => { w with now := w.now + dt }) := by
-  refine Rel.modW _ fun w hI => ?_
-  obtain ⟨tx, hc, h⟩ := hI
-  refine ⟨tx, hc, fun b lk e he hm => ?_⟩
-  obtain ⟨hh, d, hd1, hd2⟩ := h b lk e he hm
-  exact ⟨hh, d, hd1, by simp only; omega⟩
+theorem txSetMany_RI (cfg : Cfg) (b : Nat) (kvs : List (Nat × Int)) (ttl : Option Nat) :
+    Rel (RI cfg.timeout) (txSetMany cfg b kvs ttl) := by
+  unfold txSetMany
+  simp only [bind_eq, pure_eq]
+  rel_steps (RI.pre cfg.timeout)
+  all_goals first | exact wrap_RI _ _ | exact lockAll_RI _ _ _ | ri_leaf
+
+theorem txDelMany_RI (cfg : Cfg) (b : Nat) (ks : List Nat) : Rel (RI cfg.timeout) (txDelMany cfg b ks) := by
+  unfold txDelMany
+  simp only [bind_eq, pure_eq]
+  rel_steps (RI.pre cfg.timeout)
+  all_goals first | exact wrap_RI _ _ | exact lockAll_RI _ _ _ | ri_leaf
+
+theorem emit_RI (T : Nat) (r : Reply) : Rel (RI T) (emit r) := Rel.modW _ fun _ h => h
 
 theorem bodyStep_RI (cfg : Cfg) (c : BodyCmd) : Rel (RI cfg.timeout) (bodyStep cfg c) := by
   cases c <;> unfold bodyStep <;> simp only [bind_eq]
@@ -196,6 +223,8 @@ theorem bodyStep_RI (cfg : Cfg) (c : BodyCmd) : Rel (RI cfg.timeout) (bodyStep c
   · exact Rel.bind (RI.pre _) (txDelete_RI _ _ _) fun _ => emit_RI _ _
   · exact adv_RI _ _
   · exact Rel.throw (RI.pre _) _
+  · exact Rel.bind (RI.pre _) (txSetMany_RI _ _ _ _) fun _ => emit_RI _ _
+  · exact Rel.bind (RI.pre _) (txDelMany_RI _ _ _) fun _ => emit_RI _ _
 
 theorem runBody_RI (cfg : Cfg) (body : List BodyCmd) : Rel (RI cfg.timeout) (runBody cfg body) := by
   induction body with
@@ -229,9 +258,9 @@ theorem backendCmd_RExit (cfg : Cfg) (b : Nat) (c : BCmd) (hc : c.noLock) : Rel 
   · rw [backendCmd_ok cfg b c w hf]
     refine ⟨by simp [applyCmd_counter, logged], fun ev h => ?_, by simp [applyCmd_now, logged], fun k e h => ?_⟩
     · simp [applyCmd_log, logged, h]
-    · exact applyCmd_locks_shrink b c (logged cfg b c w) hc k e h
+    · exact logged_locks_sub _ _ _ _ _ _ (applyCmd_locks_shrink b c (logged cfg b c w) hc k e h)
   · rw [backendCmd_fail cfg b c w hf]
-    exact ⟨by simp [logged], fun ev h => by simp [logged, h], rfl, fun _ _ h => h⟩
+    exact ⟨by simp [logged], fun ev h => by simp [logged, h], rfl, fun _ _ h => logged_locks_sub _ _ _ _ _ _ h⟩
 
 theorem gatherUnlock_RExit (cfg : Cfg) (b : Nat) (ls : List Nat) : Rel RExit (gatherUnlock cfg b ls) := by
   induction ls with
@@ -247,6 +276,24 @@ def Released (w : FWorld) (b lk : Nat) : Prop := ∀ e, alLookup w.locks (b, lk)
 theorem Released.mono {w w' : FWorld} {b lk : Nat} (h : Released w b lk) (hr : RExit w w') : Released w' b lk :=
   fun e he => h e (hr.2.2.2 _ _ he)
 
+/-- an `unlock` that took effect leaves no entry with this transaction's token under its key -/
+theorem applyCmd_unlock_released (b lk : Nat) (wl : FWorld) (e : LEntry)
+    (he : alLookup (applyCmd b (.unlock lk) wl).2.locks (b, lk) = some e) : e.mine = false := by
+  unfold applyCmd at he
+  simp only at he
+  split at he
+  · rename_i hnone
+    simp [hnone] at he
+  · rename_i e0 hsome
+    split at he
+    · simp at he
+    · split at he
+      · simp at he
+      · rename_i hmine
+        simp only [hsome, Option.some.injEq] at he
+        subst he
+        simpa using hmine
+
 /-- one `unlock`: the entry is gone (or was never ours), or that very command was made to fail -/
 theorem unlock_spec (cfg : Cfg) (c0 b lk : Nat) (w : FWorld) (hc : c0 ≤ w.counter) :
     Released (backendCmd cfg b (.unlock lk) w).2 b lk ∨ FU cfg c0 (backendCmd cfg b (.unlock lk) w).2 b lk := by
@@ -254,20 +301,7 @@ theorem unlock_spec (cfg : Cfg) (c0 b lk : Nat) (w : FWorld) (hc : c0 ≤ w.coun
   · left
     rw [backendCmd_ok cfg b _ w hf]
     intro e he
-    unfold applyCmd at he
-    simp only [logged_locks] at he
-    split at he
-    · rename_i hnone
-      simp [logged_locks, hnone] at he
-    · rename_i e0 hsome
-      split at he
-      · simp at he
-      · split at he
-        · simp at he
-        · rename_i hmine
-          simp only [logged_locks, hsome, Option.some.injEq] at he
-          subst he
-          simpa using hmine
+    exact applyCmd_unlock_released b lk _ e he
   · right
     rw [backendCmd_fail cfg b _ w hf]
     exact ⟨w.counter, hc, by simp [logged], hf, by simp [logged, hf]⟩
